@@ -344,3 +344,52 @@ def lost_updates(f, nonlocal_only=True):
                     work.append((t, 0))
         if dead and killed:
             yield ln, L
+
+
+def logical_physical_rule(chk, P, rule, min_pairs=2):
+    """EProgCounter() yields the logical (PHASE-adjusted) address, ProgCounter()
+    the physical one.  A global assigned only from one of them carries that
+    dimension; comparisons, differences and assignments must not mix them."""
+    def has_call(e, name):
+        return mentions(e, lambda x: isinstance(x, (list, tuple)) and len(x) > 1 and x[0] == 'call' and callee_name(x) == name)
+    cls = collections.defaultdict(set)
+    for f in P.all_funcs():
+        for k, how, ln, n, b, i in P.writes(f):
+            if how == '=' and is_assign(n):
+                if has_call(n[3], 'EProgCounter'):
+                    cls[k].add('L')
+                if has_call(n[3], 'ProgCounter'):
+                    cls[k].add('P')
+    Lv = {k for k, v in cls.items() if v == {'L'}}
+    Pv = {k for k, v in cls.items() if v == {'P'}}
+
+    def dim(f, e):
+        d = set()
+        if has_call(e, 'EProgCounter'):
+            d.add('L')
+        if has_call(e, 'ProgCounter'):
+            d.add('P')
+        for x in walk(e):
+            if isinstance(x, (list, tuple)) and x and x[0] in ('g', 'gs'):
+                k = P.gkey(f, x[0], x[1])
+                if k in Lv:
+                    d.add('L')
+                if k in Pv:
+                    d.add('P')
+        return d
+    n = 0
+    for f in P.all_funcs():
+        for b, i, ln, m in f.nodes():
+            if m[0] == 'b' and m[1] in ('==', '!=', '<', '>', '<=', '>=', '-'):
+                a, c = dim(f, m[2]), dim(f, m[3])
+                if a and c:
+                    n += 1
+                    ok = a == c
+                    chk.ob(rule, '%s:%s:%s%s%s' % (f.unit.name, f.name, show(m[2])[:30], m[1], show(m[3])[:30]), ok, f.loc(ln),
+                           'same address space' if ok else
+                           'a %s address is combined with a %s address (%s %s %s): inside a PHASE block the two differ by '
+                           'the phase offset' % ('logical' if 'L' in a else 'physical', 'logical' if 'L' in c else 'physical',
+                                                 show(m[2]), m[1], show(m[3])))
+    if n < min_pairs:
+        raise AnalysisBroken('%s: only %d logical/physical address pairs found' % (rule, n))
+    return n
